@@ -84,11 +84,12 @@ def check(ctx):
              "fresh copies) from the first parameter of every transform function / expand_transform and from `self` of the "
              "non-mutating QuantumScript methods; a statement that writes through a tape/list/element/internal value is a sink; "
              "resolved callees are summarised (mutates / returns-alias) to a bounded depth")
-    rep.assume("unresolved callees (dynamic dispatch such as op.map_wires, op.simplify, third-party functions) are effect-free and "
-               "return fresh objects; lazily filled caches of QuantumScript (_graph, _specs, _batch_size, _obs_sharing_wires*) are not "
+    rep.assume("method calls on operators owned by the tape are resolved by method name over the whole operator hierarchy (every "
+               "implementation must leave `self` alone); other unresolved callees (third-party functions, callables passed as arguments) "
+               "are effect-free and return fresh objects; lazily filled caches of QuantumScript (_graph, _specs, _batch_size, _obs_sharing_wires*) are not "
                "observable state; `X is not tape` guards are honoured")
-    depth = 6 if ctx.thorough else 3
-    eng = Engine(ix, TAPE_SPEC, max_depth=depth)
+    depth = 8 if ctx.thorough else 4
+    eng = Engine(ix, TAPE_SPEC, max_depth=depth, dispatch_bases=("Operator", "Operator2", "MeasurementProcess"))
     roots = transform_roots(ix)
     rep.floor("transform tape functions / expand_transforms", len(roots), 100)
     n_sinks = 0
